@@ -154,7 +154,7 @@ Qed.
 
 Lemma c07_seamless_cursor_proof : C07_seamless_cursor.
 Proof.
-  intros U c w ps merged_end canon forked cu L rest hc hf Hwfb Hlok Hhub Hchain Hincl merged Htip Hagr
+  intros U c w ps merged_end canon forked cu L rest hc hf Hwfb Hlok Hhub Hchain Hincl merged Htip
          Hmode Hcur Hfilter Hstop Hbundle Hbound Hfrom HL Hstate HhfU HXU res.
   assert (Hfiles : (h_ready (w_hub w) = true -> forall evs, blocks_from_cursor (h_f (w_hub w)) cu <> BOk evs) ->
             exists c', cons_fold_aside (mkCons (rev (hc ++ hf)) 0 false) (map as_new (fst res)) = Some c' /\
@@ -163,7 +163,7 @@ Proof.
                  (exists r1 rest1, rest = r1 :: rest1 /\ from_num (bnum r1) (rev (cs_stack c')) = rest) \/
                  above (rn (cu_lib cu)) (rev (cs_stack c')) = rest)).
   { intros Hno.
-    destruct (c07_seamless_cursor_files_proof U c w ps merged_end canon forked cu L rest hc hf Hwfb Hlok Hhub Hchain Hincl Htip Hagr
+    destruct (c07_seamless_cursor_files_proof U c w ps merged_end canon forked cu L rest hc hf Hwfb Hlok Hhub Hchain Hincl Htip
                 Hmode Hcur Hfilter Hstop Hbundle Hbound Hno Hfrom HL Hstate) as (c' & Hfold & Hfin).
     exists c'. split; [exact Hfold|]. intros Hn. destruct (Hfin Hn) as [H|[H|H]]; auto. }
   destruct (h_ready (w_hub w)) eqn:Hrd; [|apply Hfiles; intros H; discriminate].
